@@ -41,7 +41,8 @@ MANIFEST = {
 TOL = 1e-5          # intersection_tolerance used by field_optimization_fr
 GUARD_S = 10.0      # CPU-time guard per gen_borehole_config call (a healthy call takes milliseconds, < 1 s for 1000 boreholes)
 GUARD_SWEEP_S = 120.0  # per rotation sweep incl. the re-run per rotation (healthy: up to ~15 s at 0.5 deg steps)
-EPS_IN = 1e-6       # "inside or on the outline"
+EPS_IN = 2e-5       # "inside or on the outline": intersection_tolerance 1e-5 times (|a| + |b|) <= sqrt 2 of a unit normal,
+                    # the slack of theorem inside_convex (row/outline intersections are accepted within the tolerance box of an edge)
 EPS_SP = 1e-6       # spacing slack
 
 DEMO_OUTLINE = [[19.46202532, 108.8860759], [19.67827004, 94.46835443], [24.65189873, 75.3164557], [37.19409283, 56.59493671],
@@ -178,6 +179,55 @@ def gen_nogo(rng, poly):
     if rng.random() < 0.5:
         z = z[::-1]
     return z
+
+
+def gen_multizone(rng, rot, n, aligned=None):
+    """A convex lot with n disjoint convex no-go zones strung along the row direction of rotation `rot`, so that the rows
+    through the middle of the lot cross several of them.  -> (poly, zones listed ALONG the row direction, spacing)."""
+    s = round(rng.uniform(6, 14), 1)
+    d = (math.cos(rot), math.sin(rot))
+    nrm = (-d[1], d[0])
+    halfs = [(rng.uniform(1.0, 2.5) * s, rng.uniform(1.6, 3.2) * s) for _ in range(n)]     # (along, across)
+    gaps = [rng.uniform(2.2, 4.0) * s for _ in range(n - 1)]
+    total = sum(2 * a for a, _ in halfs) + sum(gaps)
+    R = total / 2 + rng.uniform(3.5, 6) * s
+    Rn = max(b for _, b in halfs) + rng.uniform(3.5, 6) * s
+    aligned = rng.random() < 0.4 if aligned is None else aligned
+    # the lot: a rectangle or a 10-gon on an ellipse, both aligned with the rows, then moved into the first quadrant
+    if rng.random() < 0.5:
+        lot0 = [(-R, -Rn), (R, -Rn), (R, Rn), (-R, Rn)]
+    else:
+        k = 10
+        ph = rng.uniform(0, 2 * math.pi / k)
+        lot0 = [(1.25 * R * math.cos(ph + 2 * math.pi * i / k), 1.35 * Rn * math.sin(ph + 2 * math.pi * i / k)) for i in range(k)]
+    zones0 = []
+    t = -total / 2
+    for i, (a, b) in enumerate(halfs):
+        c = t + a
+        off = rng.uniform(-0.4, 0.4) * s
+        tilt = 0.0 if aligned else rng.uniform(-0.5, 0.5)
+        m = rng.choice([4, 5, 6])
+        if m == 4:
+            z = [(-a, -b), (a, -b), (a, b), (-a, b)]
+        else:
+            ph = rng.uniform(0, 2 * math.pi / m)
+            z = [(a * math.cos(ph + 2 * math.pi * j / m), b * math.sin(ph + 2 * math.pi * j / m)) for j in range(m)]
+        ct, st = math.cos(tilt) if m == 4 else 1.0, math.sin(tilt) if m == 4 else 0.0
+        z = [(c + (x * ct - y * st) * (0.8 if tilt else 1.0), off + (x * st + y * ct) * (0.8 if tilt else 1.0)) for x, y in z]
+        if rng.random() < 0.5:
+            z = z[::-1]
+        zones0.append(z)
+        t += 2 * a + (gaps[i] if i < n - 1 else 0)
+
+    def world(q):
+        return (q[0] * d[0] + q[1] * nrm[0], q[0] * d[1] + q[1] * nrm[1])
+    lot = [world(q) for q in lot0]
+    mx, my = min(p[0] for p in lot), min(p[1] for p in lot)
+    ox, oy = rng.choice([(0.0, 0.0), (rng.uniform(1, 30), rng.uniform(1, 30))])
+    fix = lambda q: [round(q[0] - mx + ox, 3), round(q[1] - my + oy, 3)]   # noqa: E731
+    poly = [fix(q) for q in lot]
+    zones = [[fix(world(q)) for q in z] for z in zones0]
+    return poly, zones, s
 
 
 # =============================================================================== independent oracle
@@ -357,6 +407,72 @@ def run_impl(case):
                     r = orig_gen(Shapes(poly), case["space"], case["space"], rotate=rt, no_go=nogo, intersection_tolerance=1e-5)
                 fields.append((rt, [[float(q[0]), float(q[1])] for q in r]))
             res["own_fields"] = fields
+        elif kind == "alias":
+            # call history with the caller's coordinate buffers (float ndarrays): build the lot objects, generate, modify the
+            # buffers in place, generate again from the objects built FIRST
+            import numpy as np
+            buf = np.array(poly, dtype=float)
+            zbufs = [np.array(z, dtype=float) for z in (case.get("nogo") or [])]
+            lot, zones = rw.gen_shape(buf, zbufs) if zbufs else (Shapes(buf), None)
+
+            def gen_from(lot_, zones_):
+                if case.get("sweep"):
+                    f, name = rw.field_optimization_fr(case["space"], case["step"], lot_, ng_zones=zones_, rotate_start=case["start"], rotate_stop=case["stop"])
+                    return [[float(q[0]), float(q[1])] for q in f] + [[name]]
+                r = rw.gen_borehole_config(lot_, case["space"], case["space"], rotate=_angle(case["rot"]), no_go=zones_,
+                                           intersection_tolerance=case.get("tol", TOL))
+                return [[float(q[0]), float(q[1])] for q in r]
+            first = gen_from(lot, zones)
+            mut = case["mutate"]
+            for b in [buf] + (zbufs if case.get("mutate_zones") else []):
+                if mut[0] == "shift":
+                    b += np.array(mut[1], dtype=float)
+                elif mut[0] == "scale":
+                    b *= mut[1]
+                elif mut[0] == "vertex":
+                    b[mut[1] % len(b)] = b[mut[1] % len(b)] + np.array(mut[2], dtype=float)
+            res["buffer_after"] = [[float(v) for v in q] for q in buf]
+            # what the caller would do next with the re-used buffer: the lot it now describes
+            again = gen_from(lot, zones)
+            second_lot = []
+            if mut[0] == "shift" and not case.get("sweep"):
+                second_lot = gen_from(Shapes(buf), [Shapes(z) for z in zbufs] if zbufs else None)
+            name1 = first.pop() if case.get("sweep") else None
+            name2 = again.pop() if case.get("sweep") else None
+            res["points"] = first
+            res["points_again"] = again
+            res["points_second_lot"] = second_lot
+            res["names"] = [name1, name2]
+            res["bbox_first_lot"] = [float(lot.min_x), float(lot.max_x), float(lot.min_y), float(lot.max_y)]
+            res["coords_first_lot"] = [[float(v) for v in q] for q in lot.c]
+        elif kind == "container":
+            import numpy as np
+
+            def conv(form, pl):
+                if form == "list":
+                    return [list(q) for q in pl]
+                if form == "tuples":
+                    return tuple(tuple(q) for q in pl)
+                if form == "list-of-tuples":
+                    return [tuple(q) for q in pl]
+                if form == "ndarray":
+                    return np.array(pl, dtype=float)
+                if form == "ndarray-fortran":
+                    return np.asfortranarray(np.array(pl, dtype=float))
+                raise ValueError(form)
+            outs = {}
+            for form in ("list", "tuples", "list-of-tuples", "ndarray", "ndarray-fortran"):
+                ng = [Shapes(conv(form, z)) for z in case["nogo"]] if case.get("nogo") else None
+                if case.get("sweep"):
+                    f, name = rw.field_optimization_fr(case["space"], case["step"], Shapes(conv(form, poly)), ng_zones=ng,
+                                                       rotate_start=case["start"], rotate_stop=case["stop"])
+                    outs[form] = [[float(q[0]), float(q[1])] for q in f] + [[name]]
+                else:
+                    r = rw.gen_borehole_config(Shapes(conv(form, poly)), case["space"], case["space"], rotate=_angle(case["rot"]), no_go=ng,
+                                               intersection_tolerance=case.get("tol", TOL))
+                    outs[form] = [[float(q[0]), float(q[1])] for q in r]
+            res["points"] = [q for q in outs["list"] if len(q) == 2]
+            res["forms"] = outs
         elif kind == "li":
             r = Shapes(poly).line_intersect(case["row"], _angle(case["rot"]), case.get("tol", TOL))
             res["points"] = [[float(q[0]), float(q[1])] for q in r]
@@ -757,6 +873,66 @@ def run(ctx: core.Ctx):
         t = [float(rng.randint(0, 200)), float(rng.randint(0, 200))]
         add({"kind": "translate", "stream": "translate", "shape": kind, "poly": poly, "space": round(rng.uniform(5, 25), 3) + 0.0007,
              "rot": rng.choice([rng.uniform(-math.pi / 2, math.pi / 2), 0.0, list(rng.choice(RAT_ROTS))]), "t": t})
+    # ------------------------------------------------------------ several no-go zones on one row, every listing order
+    import itertools
+    rot_kinds = [0.0, 0.03, -0.04, math.pi / 2, math.pi / 2 - 0.03, -math.pi / 2 + 0.02, "generic", "generic"]
+    for rep in range(scale):
+        for rk in rot_kinds:
+            rot = rng.uniform(-1.3, 1.3) if rk == "generic" else rk
+            for n in (2, 3):
+                poly, zones, space = gen_multizone(rng, rot, n)
+                if not (is_convex(poly) and all(is_convex(z) for z in zones) and all(crossing(poly, q) == 1 for z in zones for q in z)):
+                    ctx.count("multi-ng:generator-rejected")
+                    continue
+                for perm in itertools.permutations(range(n)):
+                    add({"kind": "gen", "stream": "multi-ng", "shape": "multi-zone", "poly": poly, "space": space, "rot": rot,
+                         "nogo": [zones[i] for i in perm], "perim": None, "guard": 5.0, "zone_order": list(perm)})
+                if n == 2 and rk in (0.0, math.pi / 2, "generic"):
+                    for perm in ((0, 1), (1, 0)):
+                        add({"kind": "gen", "stream": "multi-ng", "shape": "multi-zone", "poly": poly, "space": space, "rot": rot,
+                             "nogo": [zones[i] for i in perm], "perim": 0.8, "guard": 5.0, "zone_order": list(perm)})
+                        a0 = rot - 0.1
+                        add({"kind": "opt", "stream": "multi-ng-opt", "shape": "multi-zone", "poly": poly, "space": space, "step": 4.0,
+                             "start": max(-math.pi / 2, a0), "stop": min(math.pi / 2, a0 + 0.25), "nogo": [zones[i] for i in perm], "perim": None,
+                             "guard": 30.0, "zone_order": list(perm)})
+        for rk in (0.0, math.pi / 2, -0.04, "generic"):
+            rot = rng.uniform(-1.3, 1.3) if rk == "generic" else rk
+            poly, zones, space = gen_multizone(rng, rot, 4)
+            if not (is_convex(poly) and all(is_convex(z) for z in zones) and all(crossing(poly, q) == 1 for z in zones for q in z)):
+                ctx.count("multi-ng:generator-rejected")
+                continue
+            perms = [(0, 1, 2, 3), (3, 2, 1, 0), tuple(rng.sample(range(4), 4)), tuple(rng.sample(range(4), 4))]
+            for perm in perms:
+                add({"kind": "gen", "stream": "multi-ng", "shape": "multi-zone", "poly": poly, "space": space, "rot": rot,
+                     "nogo": [zones[i] for i in perm], "perim": None, "guard": 5.0, "zone_order": list(perm)})
+    # ------------------------------------------------------------ caller's buffers (float ndarrays) modified after construction
+    for _ in range(30 * scale):
+        kind, poly = gen_polygon(rng, rng.choice(["ellipse", "ellipse_axes", "rect", "tri_origin", "lattice", "edge_on_axis"]))
+        space = round(rng.uniform(5, 25), 1)
+        mut = rng.choice([["shift", [float(rng.randint(5, 200)), float(rng.randint(5, 200))]], ["shift", [rng.uniform(1, 50), 0.0]],
+                          ["scale", rng.choice([0.5, 1.5, 2.0])], ["vertex", rng.randrange(12), [rng.uniform(5, 40), rng.uniform(5, 40)]]])
+        conv = is_convex(poly)
+        nogo = [gen_nogo(rng, poly)] if conv and rng.random() < 0.3 else None
+        c = {"kind": "alias", "stream": "alias", "shape": kind, "poly": poly, "space": space, "nogo": nogo, "perim": None, "mutate": mut,
+             "mutate_zones": rng.random() < 0.5}
+        if rng.random() < 0.3:
+            a0 = rng.uniform(-1.4, 1.0)
+            c.update(sweep=True, step=rng.choice([5.0, 10.0, 15.0]), start=a0, stop=min(math.pi / 2, a0 + rng.uniform(0.2, 0.9)), rot=None)
+        else:
+            c["rot"] = rng.choice([0.0, rng.uniform(-math.pi / 2, math.pi / 2)])
+        add(c)
+    # ------------------------------------------------------------ the same numbers in other containers
+    for _ in range(24 * scale):
+        kind, poly = gen_polygon(rng)
+        conv = is_convex(poly)
+        nogo = [gen_nogo(rng, poly)] if conv and rng.random() < 0.3 else None
+        c = {"kind": "container", "stream": "container", "shape": kind, "poly": poly, "space": round(rng.uniform(5, 25), 1), "nogo": nogo, "perim": None}
+        if rng.random() < 0.25:
+            a0 = rng.uniform(-1.4, 1.0)
+            c.update(sweep=True, step=rng.choice([5.0, 10.0]), start=a0, stop=min(math.pi / 2, a0 + rng.uniform(0.2, 0.6)), rot=None)
+        else:
+            c["rot"] = rng.choice([0.0, rng.uniform(-math.pi / 2, math.pi / 2)])
+        add(c)
     # ------------------------------------------------------------ rotation sweeps
     thetas = {"3/4": (F(4, 5), F(3, 5)), "5/12": (F(12, 13), F(5, 13)), "7/24": (F(24, 25), F(7, 25)), "8/15": (F(15, 17), F(8, 17))}
     for _ in range(24 * scale):          # exact windows k*theta
@@ -819,6 +995,7 @@ def run(ctx: core.Ctx):
             ctx.count("rotation:" + ("rational" if isinstance(c["rot"], list) else "float"))
         if c.get("nogo"):
             ctx.count("with-nogo")
+            ctx.count("nogo-zones:%d" % len(c["nogo"]))
         if c.get("perim") is not None:
             ctx.count("with-perimeter")
         ctx.count("vertices:%d" % len(c["poly"]))
@@ -1020,6 +1197,43 @@ def run(ctx: core.Ctx):
                         ctx.count("near-boundary-other-branch")
                     else:
                         disagree("opt", c, {"impl_n": len(pts), "impl_idx": first, "model": m["opt"][:200]})
+        elif c["kind"] == "alias":
+            pts = [q for q in r["points"]]
+            what = "field_optimization_fr" if c.get("sweep") else "gen_borehole_config"
+            check_field(ctx, c, pts, what + " (lot built from an ndarray)", tag)
+            if r["points_again"] != pts or r["names"][0] != r["names"][1]:
+                ctx.count("alias:changed")
+                outside = [q for q in r["points_again"] if clearly_outside(c["poly"], q)]
+                ctx.finding("lot-object-aliases-callers-buffer",
+                            f"{what}: the lot object built from a float ndarray gives a different field after the caller modified that array in place "
+                            f"({c['mutate'][0]}): {len(pts)} boreholes before, {len(r['points_again'])} after, {len(outside)} of them outside the outline "
+                            f"the object was built from (its vertices are now {r['coords_first_lot'][:2]}…, its cached bounding box still "
+                            f"{r['bbox_first_lot']})", {"case": c, "first": pts[:6], "again": r["points_again"][:6]})
+            else:
+                ctx.count("alias:unchanged")
+                # the re-used buffer describes the moved lot: rigid translation for a shift
+                # (not on integer-lattice lots: rows through vertices are decided by float equality inside point_intersect)
+                if c["mutate"][0] == "shift" and not c.get("sweep") and (not c.get("nogo") or c.get("mutate_zones")) \
+                        and c.get("shape") not in ("lattice", "edge_on_axis"):
+                    t = c["mutate"][1]
+                    if min(v[0] for v in r["buffer_after"]) >= 0 and not same_points([[q[0] + t[0], q[1] + t[1]] for q in pts], r["points_second_lot"], 1e-6):
+                        stable = all(len((run_impl(dict(c, kind="gen", rot=c["rot"], space=c["space"] * f)).get("points") or [])) == len(pts)
+                                     for f in (1 - 1e-9, 1 + 1e-9))
+                        if stable:
+                            ctx.finding(f"translation:{tag}", f"the lot built from the shifted buffer does not get the shifted field "
+                                        f"({len(pts)} vs {len(r['points_second_lot'])} boreholes)", {"case": c})
+                        else:
+                            ctx.count("translate:near-boundary")
+        elif c["kind"] == "container":
+            check_field(ctx, c, r["points"], "gen_borehole_config", tag)
+            base = r["forms"]["list"]
+            for form, val in r["forms"].items():
+                if val != base:
+                    ctx.finding("container-dependence", f"the same outline passed as {form} gives a different field than passed as list of lists "
+                                f"({len(val)} vs {len(base)} entries)", {"case": c, "form": form})
+                    break
+            else:
+                ctx.count("container:identical-5-forms")
         elif c["kind"] == "li":
             if "li" in m:
                 _, st, payload = parse_model(m["li"])
